@@ -142,12 +142,35 @@ def small_alphabet(enz):
 # ----------------------------------------------------------------------------
 # evaluation
 # ----------------------------------------------------------------------------
+def zero_width_form(c, rng):
+    """an equivalent enzyme rule written with look-around only (its matches are empty; the cleavage site is still the
+    match end): `(?<=[KR])(?!P)` for `[KR](?!P)`, `(?=D)` for `.(?=D)`.  Same match ends as the consuming form for
+    every width-1 pattern — except that a look-ahead-only rule may also match at position 0, so that form is used only
+    when it does not.  None when the case has no such form."""
+    def has(neg, letters, ch):
+        return (ch in letters) != neg
+
+    if is_pattern(c):
+        pat = pat_of(c)
+        if pat is None or len(pat["classes"]) != 1:
+            return None
+        (neg, letters), la = pat["classes"][0], pat["la"]
+        la_txt = "" if la is None else ("(?=" if la[0] else "(?!") + class_regex(la[1], la[2]) + ")"
+        if neg and not letters and la is not None and la[0] and rng.random() < 0.5:
+            if not c["seq"] or not has(la[1], la[2], c["seq"][0]):
+                return la_txt                       # look-ahead only
+        return "(?<=" + class_regex(neg, letters) + ")" + la_txt
+    cls, nn = ENZYMES[c["enz"]]
+    return "(?<=[" + cls + "])" + ("(?![" + nn + "])" if nn else "")
+
+
 def the_regex(c):
+    enz = c.get("zw") or c["enz"]
     if c.get("compiled"):
-        if c["enz"] not in _COMPILED:
-            _COMPILED[c["enz"]] = re.compile(c["enz"])
-        return _COMPILED[c["enz"]]
-    return c["enz"]
+        if enz not in _COMPILED:
+            _COMPILED[enz] = re.compile(enz)
+        return _COMPILED[enz]
+    return enz
 
 
 def impl_digest(c):
@@ -272,6 +295,7 @@ def eval_cases(chk, cases, detail=True):
             pat = is_pattern(c)
             chk.count("len", n if n <= 10 else ("11-30" if n <= 30 else ("31-100" if n <= 100 else ">100")))
             chk.count("enzyme", c["enz"] if (not pat or c["enz"] in PATTERNS) else "(random pattern)")
+            chk.count("enzyme_written_as", "look-around only (empty matches)" if c.get("zw") else "consuming")
             chk.count("compiled_regex", bool(c.get("compiled")))
             chk.count("mc", c["mc"])
             chk.count("clip", c["clip"])
@@ -476,6 +500,10 @@ def gen_case(rng, nmax=160):
              clip=rng.random() < 0.5, semi=rng.random() < 0.5)
     if pat is not None and enz not in PATTERNS:
         c["pat"] = pat
+    if rng.random() < 0.2:
+        zw = zero_width_form(c, rng)
+        if zw is not None:
+            c["zw"] = zw
     r = rng.random()
     if r < 0.12:
         c["call"] = "pos"
